@@ -121,7 +121,7 @@ AF_TB = ["the real sso-auth handler tree (auth.NewAuthenticatorMux with the real
             "the identity provider is scripted: the providers' package-level HTTP client gets a RoundTripper (through an overlay accessor) that answers token / userinfo / tokeninfo / introspect / revoke calls per step and logs them",
             "net/url.Parse (Host, Hostname), base64 decoding of sig/state, strconv.ParseInt of ts, strings.ToLower and JSON/base64 decoding of id_token segments are oracles computed by calling the libraries (and the two real predicates validRedirectURI / validSignature through accessors, for the oracle of nested values only); the HMAC is idealised (PRF) — the harness mints signatures with its own HMAC implementation call",
             "an independent RFC 3986 authority/host splitter plus a browser-style reading (backslash as slash, tab/CR/LF stripped) written in the harness judges every Location header for C07's monitor",
-            "modelled: middleware.go gates, authenticator.go authenticate/SignIn/ProxyOAuthRedirect/SignOut/Redeem/OAuthCallback decision logic, google.go/okta.go Redeem and error classes; the route table is regenerated; not modelled: Refresh/GetProfile/ValidateToken bodies (gating only), Cognito, static files, the sign-in page's form target"]
+            "modelled: middleware.go gates, authenticator.go authenticate/SignIn/ProxyOAuthRedirect/SignOut/Redeem/OAuthCallback decision logic, the Refresh/ValidateToken/GetProfile handlers behind their gates, google.go/okta.go/amazon_cognito.go Redeem and error classes; the route table is regenerated; not modelled: the Cognito provider beyond Redeem, static files, the sign-in page's form target"]
 FW_TB = ["the real sso-proxy tree on a loopback socket in front of a recording backend on a loopback socket; requests are written byte by byte by the harness; net/http request parsing (canonical header names, Cookie parsing and Cookie.String rendering, Connection token splitting) are oracles computed by calling the library on the same bytes",
             "httputil.ReverseProxy's request-header editing is modelled for the tracked headers only (Connection-nominated and hop-by-hop removal); Director/X-Forwarded-For/User-Agent handling and net/http transport framing are not modelled (the backend's own record is the ground truth for Content-Length)",
             "modelled: Authenticate's header injection, deleteCookie, the signing document of request_signer.go; RSA-PKCS1v15/SHA-256 and HMAC-SHA256 are idealised (a signature verifies iff the signing documents are equal) — the backend verifies the real signatures with the real published key"]
